@@ -71,7 +71,7 @@ def gen_enum(rng):
     return spec
 
 
-def gen_table(rng, n_enums):
+def gen_table(rng, n_enums, big=False):
     fields = ["id", "name"]
     if n_enums and rng.random() < 0.75:
         fields.append("status")
@@ -81,13 +81,13 @@ def gen_table(rng, n_enums):
         fields.append("flag")
     rng.shuffle(fields)
     recs = []
-    for i in range(rng.choice([0, 1, 2, 3, 5, 8, 12])):
+    for i in range(rng.choice([0, 1, 2, 3, 5, 8, 12] + ([25, 55] if big else []))):
         rec = []
         for f in fields:
             if f == "id":
                 rec.append(i + 1)
             elif f == "name":
-                rec.append(rng.choice(NAMES_S))
+                rec.append(rng.choice(NAMES_S + (["w" * 130, "tab\there"] if big else [])))
             elif f == "status":
                 rec.append(rng.choice([0, 1, 2, 3, 10, 17, 200, 999, None]))
             elif f == "level":
@@ -154,10 +154,10 @@ PP_VALUES = [
 ]
 
 
-def gen_object(rng, n_enums):
+def gen_object(rng, n_enums, big=False):
     r = rng.random()
     if r < 0.45:
-        return gen_table(rng, n_enums)
+        return gen_table(rng, n_enums, big)
     if r < 0.57:
         return {"kind": "pp", "value": rng.choice(PP_VALUES), "fmt_json": rng.random() < 0.4}
     if r < 0.60:
@@ -209,7 +209,7 @@ def generate(rng, tier):
     inits = [colorgen.nest(colorgen.gen_init(rng), rng) for _ in range(rng.randint(2, 3))]
     if rng.random() < 0.5:
         inits.append({})
-    objs = [gen_object(rng, n_enums) for _ in range(rng.randint(2, 4))]
+    objs = [gen_object(rng, n_enums, tier != "quick") for _ in range(rng.randint(2, 4))]
     usr = gen_usr_batches(rng)
     ops = []
     live_conf = set()
